@@ -126,7 +126,18 @@ def main(argv=None):
             else:
                 broken.append('obligation %s refuted by the solver but the model does not fail natively (%s)' % (r['id'], rr.get('outcome')))
         elif st == 'undecided':
-            undecided.append(r)
+            # the solver (or the evaluator) could not decide: try to FALSIFY natively -- the same obligation body on seeded
+            # random inputs of the declared ranges, real code, no engine.  A native failure is a violation with its input;
+            # no failure leaves the obligation undecided (never a violation).
+            path = write_replay(prop, r)
+            rr = native_replay(path, search=300)
+            r['replay'] = rr
+            fnd = [f for f in findings if r['id'] == f['obligation'] or r['id'].startswith(f['obligation'] + '/') or fnmatch.fnmatchcase(r['id'], f['obligation'])]
+            if rr.get('outcome') == 'fails' and fnd: known.append((r, fnd[0]))
+            elif rr.get('outcome') == 'fails':
+                r['label'] = (rr.get('failures') or [['native failure']])[0][0]
+                violations.append((r, path, ''))
+            else: undecided.append(r)
         elif st == 'vacuous':
             broken.append('vacuous obligation %s: %s' % (r['id'], r.get('reason')))
         else:
